@@ -239,7 +239,11 @@ func (c *httpsCloner) putKV(kv dns.SVCBKeyValue) {
 // putIPs returns the underlying arrays of ips into c if possible.
 func (c *httpsCloner) putIPs(ips []net.IP) {
 	for _, ip := range ips {
-		if cap(ip) >= 16 {
+		// Only take the arrays that have exactly the capacity of the pooled
+		// ones.  Slices with a larger capacity, such as the hints of a
+		// message parsed from the wire, are windows into one larger array,
+		// and putting them into the pool would make its arrays overlap.
+		if cap(ip) == 16 {
 			c.ip.Put((*[16]byte)(ip[:16]))
 		}
 	}
